@@ -224,11 +224,11 @@ Definition ex_ans : pmsg :=
      pm_answer := [ {| p_owner := None; p_class := 1; p_type := 1; p_ttl := 300; p_data := None; p_num := 7 |} ];
      pm_authority := [] |}.
 Definition ex_script : list outcome :=
-  [ {| o_dur := 10; o_reply := PExn 0 |};          (* malformed reply: server 0 is dropped *)
-    {| o_dur := 10; o_reply := PMsg ex_nx |};      (* NXDOMAIN for the first candidate *)
-    {| o_dur := 10; o_reply := PExn 11 |};         (* truncated over UDP *)
-    {| o_dur := 10; o_reply := PMsg ex_ans |} ].   (* answer over TCP *)
-Definition ex_sc (i : nat) : outcome := nth i ex_script {| o_dur := 0; o_reply := PExn 12 |}.
+  [ {| o_dur := 10; o_reply := PExn 0; o_reply_tcp := PExn 0 |};          (* malformed reply: server 0 is dropped *)
+    {| o_dur := 10; o_reply := PMsg ex_nx; o_reply_tcp := PMsg ex_nx |};      (* NXDOMAIN for the first candidate *)
+    {| o_dur := 10; o_reply := PExn 11; o_reply_tcp := PExn 11 |};         (* truncated over UDP *)
+    {| o_dur := 10; o_reply := PMsg ex_ans; o_reply_tcp := PMsg ex_ans |} ].   (* answer over TCP *)
+Definition ex_sc (i : nat) : outcome := nth i ex_script {| o_dur := 0; o_reply := PExn 12; o_reply_tcp := PExn 12 |}.
 Definition ex_cfg : cfg :=
   {| c_servers := [ {| sv_id := 0; sv_maxsize := false |}; {| sv_id := 1; sv_maxsize := false |} ];
      c_tcp := false; c_retry_servfail := false; c_raise := true; c_cache := false;
